@@ -21,6 +21,10 @@ package xpoa
 //@ func xpoaSchedule.minerScheduling
 //@   property C16
 //@   requires cfg: xpCfgOK(s)
+//@   witness Period: s.period
+//@   witness BlockNum: s.blockNum
+//@   witness Timestamp: timestamp
+//@   witness Length: length
 //@   reveals xpoaSlot
 //@   ensures slot: timestamp >= 0 && length >= 1 ==> xpoaSlot(s, timestamp, length, term, pos, blockPos)
 
